@@ -536,7 +536,6 @@ func (c16) Exec(script interface{}, c *core.Ctx) {
 	c.Log("sync off=%d err=%v reads=%d", off, err, sr.Calls)
 	c.Unit("read_calls", int64(sr.Calls))
 
-	var inj *parties.InjectedErr
 	switch {
 	case err == nil:
 		if want < 0 {
@@ -552,7 +551,7 @@ func (c16) Exec(script interface{}, c *core.Ctx) {
 			c.Fail("offset", "offset_"+dir+"_want", off, want)
 			return
 		}
-	case errors.As(err, &inj):
+	case parties.IsReaderFault(err):
 		// legitimate only if the failing Read began before the header's last byte had been delivered
 		if sr.FirstErr == nil || (want >= 0 && sr.FirstErrAt >= pre+want+4) {
 			c.Fail("reader_error", "injected_error_surfaced_needlessly", err, want)
@@ -651,8 +650,7 @@ func readRest(rd io.Reader) []byte {
 		n, err := rd.Read(buf)
 		out = append(out, buf[:n]...)
 		if err != nil {
-			var inj *parties.InjectedErr
-			if errors.As(err, &inj) {
+			if parties.IsReaderFault(err) {
 				continue
 			}
 			break
